@@ -13,7 +13,7 @@ import (
 
 func init() {
 	register(&Prop{ID: "C16", Gen: genC16, Oracle: oracleC16,
-		Rule: "same session generator as C08 (different random stream); the oracle uses starting files x (0-3 prefix ops, Cleanup, one bulk setter with distinct paths, Cleanup); plus the family 'exclude order across the go-version threshold' in generator and oracle (go versions of every digit-count class of major/minor, with patch/pre-release parts, x exclude blocks with several versions of one path whose lexical and semantic orders differ, x bulk setter; the oracle also sweeps minors 0-30 and the digit-count boundaries exhaustively); non-trivial = at least one op hits a line of the starting file; distinct by op line"})
+		Rule: "same session generator as C08 (different random stream); the oracle uses starting files x (0-3 prefix ops, Cleanup, one bulk setter with distinct paths, Cleanup); plus the family 'exclude order across the go-version threshold' in generator and oracle (go versions of every digit-count class of major/minor, with patch/pre-release parts, x exclude blocks with several versions of one path whose lexical and semantic orders differ, x bulk setter; the oracle also sweeps minors 0-30 and the digit-count boundaries exhaustively); plus the family 'bulk setter on a require list with duplicate paths' in generator and oracle (files with 1-3 surplus duplicate require directives, same/other version and marking, x requested lists built from the file: every existing path kept as it stands / changed / dropped, plus about as many new paths as there are surplus directives; the oracle also sweeps all 2- and 3-directive files over two paths exhaustively); non-trivial = at least one op hits a line of the starting file; distinct by op line"})
 }
 
 func genC16(g *Gen, n int) {
@@ -33,6 +33,278 @@ func genC16(g *Gen, n int) {
 		}
 		if edEmitSession {
 			g.Emit(edSessionLine(false, file, ops), hit, tags...)
+		}
+	}
+	// the family "bulk setter on a require list with duplicate paths" (see edC16DupSession)
+	for i := 0; i < n/16+8; i++ {
+		file, ops := edC16DupSession(g.Rand)
+		hit := edC16Hit(file, ops)
+		tags := []string{"require-dups", "go.mod", "len:" + sizeBucket(len(ops))}
+		for _, o := range ops {
+			tags = append(tags, "op:"+o.Name)
+		}
+		if edEmitAbs {
+			if run := edRunSession(false, file, nil); !run.ParseErr {
+				g.Emit(edAbsStepLine(false, run.Start, ops), hit, tags...)
+			}
+		}
+		if edEmitSession {
+			g.Emit(edSessionLine(false, file, ops), hit, tags...)
+		}
+	}
+}
+
+// ---- input class "bulk setter on a require list that already has duplicate paths"
+//
+// The property promises exactly one directive per requested path "whatever duplicates the file had before".
+// The shared session generator does produce files with a path required twice, but the requested list is drawn
+// independently of the file (0-5 picks, 65% of them existing paths, fresh version 60% of the time, fresh marking
+// always): a request that (i) keeps EVERY existing directive, duplicates included, at its present version and
+// marking, and (ii) asks for as many NEW paths as the file has surplus duplicate directives - so that the number
+// of distinct requested paths equals the number of directives in the file - practically never came out.  An
+// implementation that compares the two COUNTS (directives vs. distinct requested paths), or that otherwise
+// treats "every existing entry is requested as is" as "nothing to do", was therefore never driven to a
+// difference.  This family builds the requested list FROM the file:
+//
+//	file:    1-3 distinct paths, 1-3 surplus directives that repeat one of them (same version and marking / other
+//	         version / other marking), spread over single lines and blocks, with comments and other directives
+//	request: every distinct path of the file kept as its first occurrence stands (or, less often, dropped / new
+//	         version / new marking), plus k new paths, k drawn around the number of surplus directives
+//	         (k = surplus half of the time)
+//
+// followed by Cleanup, one bulk setter, Cleanup.  The oracle (edCheckC16) is unchanged.
+func edC16DupSession(r *Rand) (file string, ops []edOp) {
+	type dir struct {
+		p, v string
+		ind  bool
+	}
+	var surplus int
+	for try := 0; ; try++ {
+		perm := append([]string{}, edModPaths...)
+		for i := len(perm) - 1; i > 0; i-- {
+			j := r.Intn(i + 1)
+			perm[i], perm[j] = perm[j], perm[i]
+		}
+		nd := 1 + r.Intn(3)
+		var dirs []dir
+		for _, p := range perm[:nd] {
+			dirs = append(dirs, dir{p, edVersFor(r, p), r.Chance(40)})
+		}
+		surplus = 1 + r.Intn(3)
+		agree := r.Chance(60) // all duplicates agree with their original
+		for i := 0; i < surplus; i++ {
+			d := dirs[r.Intn(len(dirs))]
+			if !agree {
+				switch r.Intn(4) {
+				case 0:
+					d.v = edVersFor(r, d.p)
+				case 1:
+					d.ind = !d.ind
+				}
+			}
+			// anywhere after the first directive, so that the originals keep their relative order only sometimes
+			at := 1 + r.Intn(len(dirs))
+			dirs = append(dirs[:at], append([]dir{d}, dirs[at:]...)...)
+		}
+		g := &edFG{r: r}
+		g.b.WriteString("module example.com/m\n\n")
+		if r.Chance(70) {
+			g.b.WriteString("go " + r.Pick(edGoVersions) + "\n\n")
+		}
+		line := func(indent string, d dir) string {
+			s := indent + d.p + " " + d.v
+			switch {
+			case d.ind && r.Chance(15):
+				s += " // indirect; why"
+			case d.ind:
+				s += " // indirect"
+			case r.Chance(10):
+				s += " // note"
+			}
+			return s + "\n"
+		}
+		for i := 0; i < len(dirs); {
+			if r.Chance(15) {
+				g.stmt(r.Pick([]string{"exclude", "replace"}), "example.com/m")
+			}
+			if r.Chance(35) { // single line
+				g.before("")
+				g.b.WriteString("require " + line("", dirs[i]))
+				i++
+			} else { // a block with 1.. of the remaining directives
+				k := 1 + r.Intn(len(dirs)-i)
+				g.before("")
+				g.b.WriteString("require (\n")
+				for j := 0; j < k; j++ {
+					if j > 0 && r.Chance(10) {
+						g.b.WriteString("\n")
+					}
+					g.before("\t")
+					g.b.WriteString(line("\t", dirs[i+j]))
+				}
+				g.b.WriteString(")\n")
+				i += k
+			}
+			if r.Chance(50) {
+				g.b.WriteString("\n")
+			}
+		}
+		file = g.b.String()
+		if _, err := modfile.Parse("go.mod", []byte(file), nil); err == nil {
+			break
+		}
+		if try >= 20 {
+			file, surplus = "module example.com/m\n\nrequire (\n\texample.com/a v1.2.3\n\texample.com/a v1.2.3\n)\n", 1
+			break
+		}
+	}
+	cur := edRunSession(false, file, nil).Start
+	if r.Chance(15) {
+		ops = append(ops, edGenOp(r, cur, false))
+		if edIsBulk(ops[0].Name) {
+			ops = ops[:0]
+		}
+	}
+	// the requested list, built from the file
+	var list []edEnt
+	seen := map[string]bool{}
+	exact := r.Chance(55) // keep every existing path exactly as its first occurrence stands
+	for _, e := range cur.L[edRequire] {
+		if seen[e.K[0]] {
+			continue
+		}
+		seen[e.K[0]] = true
+		w := edEnt{K: []string{e.K[0], e.K[1]}, Ind: e.Ind, ID: -1}
+		if !exact {
+			switch r.Intn(10) {
+			case 0, 1:
+				continue // to be deleted
+			case 2, 3:
+				w.K[1] = edVersFor(r, e.K[0])
+			case 4:
+				w.Ind = !w.Ind
+			}
+		}
+		list = append(list, w)
+	}
+	k := surplus
+	if r.Chance(50) {
+		k = r.Intn(surplus + 2)
+	}
+	for _, p := range edModPaths {
+		if k > 0 && !seen[p] && r.Chance(70) {
+			seen[p] = true
+			list = append(list, edEnt{K: []string{p, edVersFor(r, p)}, Ind: r.Chance(40), ID: -1})
+			k--
+		}
+	}
+	for i := len(list) - 1; i > 0; i-- {
+		j := r.Intn(i + 1)
+		list[i], list[j] = list[j], list[i]
+	}
+	set := edOp{Name: r.Pick([]string{"setrequire", "setrequiresep"}), List: list, Rev: r.Bool()}
+	ops = append(ops, edOp{Name: "cleanup"}, set, edOp{Name: "cleanup"})
+	return file, ops
+}
+
+// edC16DupSweep: the small-scope exhaustive part of the same class.  Files: 2 or 3 require directives over the
+// paths a, b (the first is a; at least one path twice), each with version v1.0.0 / v1.2.3 and direct / indirect,
+// as single lines and as one block.  Requests: a and b each absent / as the first occurrence stands / with a new
+// version and the other marking; the new paths c and d each absent / present.  Both setters.  do is called with
+// each (file, ops); quick tier: 3-directive files only with all-direct markings.
+func edC16DupSweep(do func(file string, ops []edOp)) {
+	type dir struct {
+		p, v string
+		ind  bool
+	}
+	vers := []string{"v1.0.0", "v1.2.3"}
+	var files [][]dir
+	var rec func(cur []dir, n int)
+	rec = func(cur []dir, n int) {
+		if len(cur) == n {
+			paths := map[string]bool{}
+			for _, d := range cur {
+				paths[d.p] = true
+			}
+			if len(paths) < n {
+				files = append(files, append([]dir{}, cur...))
+			}
+			return
+		}
+		for _, p := range []string{"example.com/a", "example.com/b"} {
+			if len(cur) == 0 && p != "example.com/a" {
+				continue
+			}
+			for _, v := range vers {
+				for _, ind := range []bool{false, true} {
+					if ind && n == 3 && !thorough {
+						continue
+					}
+					rec(append(cur, dir{p, v, ind}), n)
+				}
+			}
+		}
+	}
+	rec(nil, 2)
+	rec(nil, 3)
+	for _, dirs := range files {
+		first := map[string]dir{}
+		for _, d := range dirs {
+			if _, ok := first[d.p]; !ok {
+				first[d.p] = d
+			}
+		}
+		// requested lists: the product of the per-path options (nil = absent)
+		var opts [][]*edEnt
+		for _, p := range []string{"example.com/a", "example.com/b"} {
+			if f, ok := first[p]; ok {
+				opts = append(opts, []*edEnt{nil, {K: []string{p, f.v}, Ind: f.ind, ID: -1}, {K: []string{p, "v1.10.0"}, Ind: !f.ind, ID: -1}})
+			} else {
+				opts = append(opts, []*edEnt{nil, {K: []string{p, "v1.0.0"}, ID: -1}})
+			}
+		}
+		opts = append(opts, []*edEnt{nil, {K: []string{"example.com/c/v2", "v2.0.0"}, ID: -1}})
+		opts = append(opts, []*edEnt{nil, {K: []string{"example.com/d/v3", "v3.0.0"}, Ind: true, ID: -1}})
+		lists := [][]edEnt{nil}
+		for _, o := range opts {
+			var next [][]edEnt
+			for _, l := range lists {
+				for _, e := range o {
+					l2 := append([]edEnt{}, l...)
+					if e != nil {
+						l2 = append(l2, *e)
+					}
+					next = append(next, l2)
+				}
+			}
+			lists = next
+		}
+		for _, block := range []bool{false, true} {
+			var b strings.Builder
+			b.WriteString("module example.com/m\n\n")
+			if block {
+				b.WriteString("require (\n")
+			}
+			for _, d := range dirs {
+				if block {
+					b.WriteString("\t")
+				} else {
+					b.WriteString("require ")
+				}
+				b.WriteString(d.p + " " + d.v)
+				if d.ind {
+					b.WriteString(" // indirect")
+				}
+				b.WriteString("\n")
+			}
+			if block {
+				b.WriteString(")\n")
+			}
+			for _, l := range lists {
+				for _, name := range []string{"setrequire", "setrequiresep"} {
+					do(b.String(), []edOp{{Name: "cleanup"}, {Name: name, List: l}, {Name: "cleanup"}})
+				}
+			}
 		}
 	}
 }
@@ -768,6 +1040,21 @@ func oracleC16(g *Gen, n int) {
 	for i := 0; i < n/8+16; i++ {
 		file, ops := edC16ThresholdSession(g.Rand)
 		g.Case("c16-exclude-order-threshold:" + ops[len(ops)-2].Name)
+		if sig, _ := edCheckC16(false, file, ops); sig != "" && !seen[sig] {
+			report(false, file, ops, sig)
+		}
+	}
+	// The class "bulk setter on a require list with duplicate paths" (see edC16DupSession): the exhaustive
+	// small-scope sweep, then the random family.
+	edC16DupSweep(func(file string, ops []edOp) {
+		g.Case("c16-require-dups:sweep")
+		if sig, _ := edCheckC16(false, file, ops); sig != "" && !seen[sig] {
+			report(false, file, ops, sig)
+		}
+	})
+	for i := 0; i < n/4+32; i++ {
+		file, ops := edC16DupSession(g.Rand)
+		g.Case("c16-require-dups:" + ops[len(ops)-2].Name)
 		if sig, _ := edCheckC16(false, file, ops); sig != "" && !seen[sig] {
 			report(false, file, ops, sig)
 		}
